@@ -8,7 +8,7 @@ namespace NasdaqModel.SyncFacade
 def pcRank : Pc → Nat
   | .idle => 0
   | .acq => 12 | .chkEvt => 11 | .chk1 => 10 | .chk2 => 9 | .submit => 8 | .wait => 5
-  | .rel => 4 | .relExc => 4 | .waitEvt => 3 | .join => 2
+  | .rel => 4 | .waitEvt => 3 | .join => 2
 
 def jobRank : Job → Nat
   | .none => 0 | .submitted _ => 2 | .blocked _ => 1 | .running => 1 | .done _ => 0
@@ -20,8 +20,7 @@ def callerMu (c : Caller) : Nat :=
    | pc => pcRank pc + 14 * (c.prog.length - 1)) + jobRank c.job
 
 def closeRank : ClosePc → Nat
-  | .idle => 7 | .spawned => 6 | .begun => 5 | .wantLock => 4 | .haveLock => 3 | .stopCalled => 2
-  | .eventSet => 1 | .done => 0
+  | .idle => 5 | .spawned => 4 | .begun => 3 | .inCb => 2 | .stopCalled => 1 | .done => 0
 
 def sumMu : List Caller → Nat
   | [] => 0
